@@ -257,3 +257,6 @@ def run(ctx, led):
     run_rule(led, "A11", "typestate: the guard is handed out only in InfeasibleUnderAssumptions, its "
              "Drop returns the solver to a usable root state, no other result keeps assumption "
              "levels", a_typestate, ctx)
+    from . import predrules
+    run_rule(led, "A12", "is_mutually_exclusive_with answers true only for two predicates on one variable that no value satisfies together (TABLE)", predrules.mutex_sound, ctx)
+    run_rule(led, "A13", "Predicate negation is the exact complement (shared with C02-U9)", predrules.negation_exact, ctx)
